@@ -344,13 +344,11 @@ Advance ==
 \* The server process dies: every connection to it ends (its client's reader sees EOF). Calls in flight
 \* on those connections fail with ErrShutdown at once (their callers mark the connection dead and close
 \* it); pooled connections without calls stay in the pool, broken, until a call is refused on them.
-Kill(a) ==
-    /\ up[a] /\ nkills < MaxKills
-    /\ nkills' = nkills + 1
-    /\ up' = [up EXCEPT ![a] = FALSE]
-    /\ LET hit == {k \in Callers : cst[k] = "inflight" /\ addrOf[cconn[k]] = a}
-           hc == {cconn[k] : k \in hit} IN
-       /\ broken' = [c \in ConnIds |-> broken[c] \/ (addrOf[c] = a /\ open[c])]
+\* the connections in S end (their client's reader sees EOF)
+Break(S) ==
+    LET hit == {k \in Callers : cst[k] = "inflight" /\ cconn[k] \in S}
+        hc == {cconn[k] : k \in hit} IN
+       /\ broken' = [c \in ConnIds |-> broken[c] \/ c \in S]
        /\ cst' = [k \in Callers |-> IF k \in hit THEN "idle" ELSE cst[k]]
        /\ cconn' = [k \in Callers |-> IF k \in hit THEN NoConn ELSE cconn[k]]
        /\ failsSince' = [k \in Callers |-> IF k \in hit THEN failsSince[k] + 1 ELSE failsSince[k]]
@@ -358,7 +356,19 @@ Kill(a) ==
        /\ alive' = [c \in ConnIds |-> IF c \in hc THEN FALSE ELSE alive[c]]
        /\ open' = [c \in ConnIds |-> IF c \in hc THEN FALSE ELSE open[c]]
        /\ last' = [c \in ConnIds |-> IF c \in hc THEN tnow ELSE last[c]]
+Kill(a) ==
+    /\ up[a] /\ nkills < MaxKills
+    /\ nkills' = nkills + 1
+    /\ up' = [up EXCEPT ![a] = FALSE]
+    /\ Break({c \in ConnIds : addrOf[c] = a /\ open[c]})
     /\ UNCHANGED <<conns, cursor, idle, addrOf, used, clock, tnow, closed, caddr, ncalls>>
+\* One connection ends while its server stays up (idle timeout at the peer, a network drop): the usual way a pooled
+\* connection dies.  A caller that retried on its own would reach the same, live, server again.
+Drop(c) ==
+    /\ c \in used /\ open[c] /\ ~broken[c] /\ up[addrOf[c]] /\ nkills < MaxKills
+    /\ nkills' = nkills + 1
+    /\ Break({c})
+    /\ UNCHANGED <<conns, cursor, idle, addrOf, used, clock, tnow, closed, caddr, ncalls, up>>
 
 Restart(a) ==
     /\ ~up[a]
@@ -384,6 +394,7 @@ Next ==
     \/ Close
     \/ Advance
     \/ \E a \in Addrs : Kill(a) \/ Restart(a)
+    \/ \E c \in ConnIds : Drop(c)
 
 Spec == Init /\ [][Next]_vars
 
